@@ -19,6 +19,12 @@ class GenVal:
         self.gterm = gterm
 
 
+class FnPath:
+    """a named function passed as a value"""
+    def __init__(self, hir):
+        self.hir = hir
+
+
 class GenEv:
     def __init__(self, F):
         self.F = F
@@ -71,6 +77,13 @@ class GenEv:
                         return [["opaque", "let with ?"]]
                     self.ev.bind_pat(s["pat"], self.sym(init, env), env)
                     continue
+                if s["k"] in ("semi", "sexpr"):
+                    se = strip(s["e"])
+                    idx_ = e["stmts"].index(s)
+                    rest_ = {"k": "block", "stmts": e["stmts"][idx_ + 1:], "expr": e["expr"]}
+                    r_ = self.early_return(se, rest_, env)
+                    if r_ is not None:
+                        return self.fuse(pre + r_, env) if pre else r_
                 return [["opaque", "statement in generator block"]]
             if e["expr"] is None:
                 return [["opaque", "block without tail"]]
@@ -195,8 +208,12 @@ class GenEv:
                 # a plain function of values (not a serializer): kept as a function
                 env2[p["id"]] = Closure(a2, dict(env), {})
                 continue
-            if a2["k"] == "local" and isinstance(env.get(a2["id"]), Closure) and p["k"] == "bind":
+            if a2["k"] == "local" and isinstance(env.get(a2["id"]), (Closure, FnPath)) and p["k"] == "bind":
                 env2[p["id"]] = env[a2["id"]]
+                continue
+            if a2["k"] == "path" and a2.get("dk") in ("Fn", "AssocFn") and a2.get("local") and p["k"] == "bind" and not ("SerializeFn" in ty and "Fn(" not in ty):
+                # a function handed to a generic helper (e.g. the per-item serializer of a list helper)
+                env2[p["id"]] = FnPath(a2)
                 continue
             if is_gen:
                 self.ev.bind_pat(p, GenVal(self.gen(a, env)), env2) if p["k"] == "bind" else None
@@ -210,6 +227,54 @@ class GenEv:
         finally:
             self.depth -= 1
 
+    def early_return(self, se, rest, env):
+        """`if let P = x { return A(out); }  REST`  and  `if c { return Err(NotYetImplemented); } REST` as a dispatch"""
+        if se["k"] != "if" or se.get("f") is not None:
+            return None
+        tb = strip(se["t"])
+        rx = None
+        if tb["k"] == "block" and len(tb["stmts"]) == 1 and tb["expr"] is None and tb["stmts"][0]["k"] in ("semi", "sexpr") and strip(tb["stmts"][0]["e"])["k"] == "ret":
+            rx = strip(tb["stmts"][0]["e"])["x"]
+        elif tb["k"] == "block" and not tb["stmts"] and tb["expr"] is not None and strip(tb["expr"])["k"] == "ret":
+            rx = strip(tb["expr"])["x"]
+        elif tb["k"] == "ret":
+            rx = tb["x"]
+        if rx is None:
+            return None
+        c = strip(se["c"])
+        neg = False
+        while c["k"] == "un" and c["op"] == "!":
+            neg = not neg
+            c = strip(c["a"])
+        if c["k"] == "letexpr" and not neg:
+            p = c["pat"]
+            while p["k"] in ("pref", "pderef"):
+                p = p["pat"]
+            env2 = dict(env)
+            if p["k"] == "ptuplestruct":
+                label = p["res"]["path"]
+                for i, sp in enumerate(p["pats"]):
+                    self.ev.bind_pat(sp, ["payload", label, i], env2)
+            elif p["k"] == "pexpr" and p["e"]["k"] == "path":
+                label = p["e"]["path"]
+            else:
+                return None
+            return [["switch", self.sym(c["init"], env), [[label, self.gen(rx, env2)]], self.gen(rest, env)]]
+        if c["k"] == "match" and len(c["arms"]) == 2:
+            # matches!(x, V) lowered to match x { V => true, _ => false }
+            a0, a1 = c["arms"]
+            p = a0["pat"]
+            while p["k"] in ("pref", "pderef"):
+                p = p["pat"]
+            label = p["e"]["path"] if (p["k"] == "pexpr" and p["e"]["k"] == "path") else (p["res"]["path"] if p["k"] in ("ptuplestruct", "pstruct") else None)
+            b0, b1 = strip(a0["body"]), strip(a1["body"])
+            if label is not None and b0.get("b") is True and b1.get("b") is False:
+                hit, miss = self.gen(rx, env), self.gen(rest, env)
+                if neg:
+                    hit, miss = miss, hit
+                return [["switch", self.sym(c["scrut"], env), [[label, hit]], miss]]
+        return None
+
     def is_out(self, a, env):
         if a is None:
             return False
@@ -218,6 +283,14 @@ class GenEv:
 
     def apply_fn(self, fexpr, arg, env):
         f = strip_ref(fexpr)
+        if f["k"] == "local":
+            fv = env.get(f["id"])
+            if isinstance(fv, Closure):
+                env2 = dict(fv.env)
+                self.ev.bind_pat(fv.hir["params"][0], arg, env2)
+                return self.gen(fv.hir["body"], env2)
+            if isinstance(fv, FnPath):
+                f = fv.hir
         if f["k"] == "closure":
             env2 = dict(env)
             self.ev.bind_pat(f["params"][0], arg, env2)
